@@ -13,6 +13,7 @@ warnings.simplefilter('ignore')
 
 def main():
     req = json.load(sys.stdin)
+    sys.stdout = sys.stderr
     from pv.native import scenarios, extra
     if req['op'] == 'family':
         if req['family'] in extra.FAMILIES:
@@ -26,7 +27,7 @@ def main():
             a = req['args']
             a[2] = tuple(a[2]); a[3] = tuple(a[3])
             out = scenarios.run_one(*a)
-    json.dump(out, sys.stdout, default=str)
+    json.dump(out, sys.__stdout__, default=str)
 
 
 if __name__ == '__main__':
